@@ -32,6 +32,7 @@ var pkgPool = []string{
 	"https://example.org/dl/p4.tar.gz",
 	"git::https://example.com/p0.git?ref=v2",
 	"git::https://example.org/q0.git",
+	"https://Example.COM/dl/P5.tgz",
 }
 var rpkgPool = []string{"example.com/ns/r0/sys", "registry.terraform.io/ns/r1/sys", "example.com/ns/r2/aws"}
 var subPool = []string{"", "a", "a/b", "c"}
@@ -39,12 +40,16 @@ var relPool = []string{"./", "./a", "./a/b", "./c", "./a", "./c", "../", "../c",
 var verPool = []string{"0.0.0", "1.0.0", "1.1.0", "2.0.0", "2.1.0-beta.1", "0.9.0", "1.1.0-rc.1", "0.0.1", "3.0.0-alpha", "3.0.0-alpha.1"}
 var setPool = []string{"", "~> 1.0", ">= 2.0.0", "=1.0.0", "< 1.0.0", ">= 1.0.0, < 2.0.0", "=1.1.0", ">= 3.0.0-alpha"}
 
+// remoteSrcString: the address of a sub-path of one of the pool's canonical packages, written by hand (the
+// sub-path goes before the query string); the worlds must not depend on the parser and printer under test
 func remoteSrcString(pkg, sub string) string {
-	p, err := sourceaddrs.ParseRemotePackage(pkg)
-	if err != nil {
-		panic("harness: bad pool package " + pkg + ": " + err.Error())
+	if sub == "" {
+		return pkg
 	}
-	return p.SourceAddr(sub).String()
+	if i := strings.Index(pkg, "?"); i >= 0 {
+		return pkg[:i] + "//" + sub + pkg[i:]
+	}
+	return pkg + "//" + sub
 }
 func regSrcString(rp, sub string) string {
 	if sub == "" {
@@ -166,6 +171,9 @@ func genWorld(rng *Rng, g genCfg) (*World, []OpSpec) {
 		}
 		if rng.Chance(40) {
 			m := [2]string{fmt.Sprintf("%040x", rng.Next()), rng.Pick([]string{"", "fix things", "msg with \"quotes\" & <tags>\nsecond line"})}
+			if rng.Chance(20) {
+				m[0] = "" // no commit id; with an empty message too the object carries nothing
+			}
 			w.Pkgs[i].Meta = &m
 		}
 		if g.faulty && rng.Chance(8) {
@@ -302,7 +310,11 @@ func (e *worldEmit) worldCoq() string {
 	for _, p := range w.Pkgs {
 		f := "None"
 		if !p.FetchErr {
-			f = fmt.Sprintf("(Some (%s, %s))", coqN(e.cid(p.Content)), coqOptPair(p.Meta))
+			meta := p.Meta
+			if meta != nil && meta[0] == "" && meta[1] == "" {
+				meta = nil // a metadata object that carries nothing is not recorded in the manifest: same as none for the finished bundle
+			}
+			f = fmt.Sprintf("(Some (%s, %s))", coqN(e.cid(p.Content)), coqOptPair(meta))
 		}
 		pk = append(pk, coqPair(coqStr(p.Addr), f))
 	}
@@ -542,6 +554,9 @@ func oracleBuild(w *World, ops []OpSpec, bb *builtBundle) []Violation {
 			sawErr = true
 		}
 	}
+	if ref.NoneAllowed && clean {
+		vs = append(vs, viol("C17", "a registry request has no offered version inside its allowed set, yet the build reported no error"))
+	}
 	if ref.Failed && clean && o.Bundle != nil {
 		// the reference says some step must fail (missing package, escaping relative path, no matching version, scripted failure)
 		vs = append(vs, viol("C12", "a build in which a step fails returned no error diagnostic and produced a bundle"))
@@ -628,6 +643,12 @@ func oracleBuild(w *World, ops []OpSpec, bb *builtBundle) []Violation {
 			vs = append(vs, viol("C14", fmt.Sprintf("source address of %s (not selected by any request) requested %d times", k, n)))
 		}
 	}
+	// --- C08: every remote source value that was handed to the builder can be looked up, as the very value it was ---
+	for _, s := range bb.runner.given {
+		if _, err := b.LocalPathForRemoteSource(s); err != nil {
+			vs = append(vs, viol("C08", fmt.Sprintf("source %s was added or reported as a dependency, the build reported no error, but the bundle does not know it: %v", s, err)))
+		}
+	}
 	// --- C08: everything added or discovered can be looked up ---
 	for it := range ref.Items {
 		pa, _ := sourceaddrs.ParseRemotePackage(it.Pkg)
@@ -671,6 +692,8 @@ func oracleBuild(w *World, ops []OpSpec, bb *builtBundle) []Violation {
 		switch {
 		case p.Meta == nil && m != nil:
 			vs = append(vs, viol("C08", "metadata appeared for "+p.Addr))
+		case p.Meta != nil && p.Meta[0] == "" && p.Meta[1] == "" && m == nil:
+			// a metadata object that carries nothing: nothing to retrieve
 		case p.Meta != nil && (m == nil || m.GitCommitID() != p.Meta[0] || m.GitCommitMessage() != p.Meta[1]):
 			sig := []string{}
 			if p.Meta[0] == "" {
@@ -895,6 +918,13 @@ func oracleFaults(w *World, ops []OpSpec, base *builtBundle, workDir string, pai
 			faults = append(faults, []Fault{{k, n}})
 		}
 	}
+	if counts["fetch"] > 0 {
+		// the target directory vanishes just before the first / the last download
+		faults = append(faults, []Fault{{"tmpdir", 0}})
+		if counts["fetch"] > 1 {
+			faults = append(faults, []Fault{{"tmpdir", counts["fetch"] - 1}})
+		}
+	}
 	if pairs {
 		single := len(faults)
 		for i := 0; i < single && i < 12; i++ {
@@ -925,6 +955,7 @@ func oracleFaults(w *World, ops []OpSpec, base *builtBundle, workDir string, pai
 			return
 		}
 		if bb.obs.FaultHit > 0 {
+			vs = append(vs, oracleTrace(bb.obs.Events)...)
 			sawErr := false
 			for j, oc := range bb.obs.Outcomes {
 				if sawErr && oc.Kind != "refused" {
